@@ -45,6 +45,7 @@ def run(ctx):
     R3 = ctx.rule('C10.R3', 'server: uptodate only for an equal generation of a present entry; no_data exactly on a miss')
     R4 = ctx.rule('C10.R4', 'every store gets a fresh generation; the counter is written nowhere else')
     R5 = ctx.rule('C10.R5', 'wire format: receiver reads only header fields the sender wrote; lengths describe the payload; the value is always taken from the reply')
+    R8 = ctx.rule('C10.R8', 'wire format end to end: a store frame is key + value + NUL-terminated trigger names with the three lengths set to those sizes, and the server slices [0,key_len), [key_len,+data_len), [..,+triggers_len) back, splits the names at the NULs and hands exactly these to the cache; a data reply is value + names with data_len / triggers_len likewise and the client takes the value and the names back the same way; rise / clear / remove reach the cache with the transmitted key')
     R6 = ctx.rule('C10.R6', 'server slices its input buffer only past the length checks')
     R7 = ctx.rule('C10.R7', 'messenger::transmit returns normally only after the request was written and the reply read on the same connection (a reconnect re-sends or throws, never drops the request)')
 
@@ -242,9 +243,208 @@ def run(ctx):
         pr = q.param_by_index(cfetch, par)
         ws = [w for w in q.writes_to(cfetch, pr) if any(x.endswith('data::' + fld) or x.endswith('::' + fld) for x in cfetch.subtree_refs(w))]
         ctx.check(len(ws) == 1 and found and q.before(cfetch, ws[0], found[0]), R5, 'tcp_cache::fetch:%s-from-reply' % fld, '%s of a found entry is not taken from the reply' % fld, cfetch.where)
+    # the verdict handed to cache_over_ip is decided by the opcode of the reply: up_to_date only for `uptodate`, found only for `data`
+    def opcode_is(name, want):
+        def pred(atom, pol):
+            n_ = cfetch.N(atom)
+            if n_['k'] != 'BinaryOperator' or n_.get('op') not in ('==', '!=') or not any(x.endswith('opcodes::' + name) for x in cfetch.subtree_refs(atom)) or not any(x.endswith('tcp_operation_header::opcode') for x in cfetch.subtree_refs(atom)):
+                return False
+            return ((n_['op'] == '==') == pol) == want
+        return cfetch.gate_edges(pred)
+    tr = [i for i in cfetch.calls() if q.short_of(cfetch.bcallee(i) or '') == 'transmit']
+    for verdict, opname in (('up_to_date', 'uptodate'), ('found', 'data')):
+        rets_ = [r for r in cfetch.returns() if any(x.endswith('tcp_cache::' + verdict) for x in cfetch.subtree_refs(cfetch.ret_value(r)))]
+        g_op = opcode_is(opname, True)
+        ctx.check(len(rets_) >= 1 and bool(g_op) and len(tr) == 1 and all(cfetch.only_through(r, g_op) and q.before(cfetch, tr[0], r) for r in rets_), R5, 'tcp_cache::fetch:%s-only-for-a-%s-reply' % (verdict, opname),
+                  'the client reports %s although the server did not answer `%s` (a stale local copy / an unparsed reply is then used)' % (verdict, opname), cfetch.where)
     # conditional fetch sends the caller's generation
     cg = [w for w in cfetch.all_nodes() if cfetch.N(w)['k'] == 'BinaryOperator' and cfetch.N(w).get('op') == '=' and (cfetch.ref_of(cfetch.N(w)['ch'][0]) or '').endswith('current_gen')]
     ctx.check(len(cg) == 1 and cfetch.ref_of(cfetch.N(cg[0])['ch'][1]) == q.param_by_index(cfetch, 4), R5, 'tcp_cache::fetch:sends-callers-generation', 'conditional fetch does not send the generation the caller holds', cfetch.where)
+
+    # ---------------- R8 wire format end to end
+    from vlib.lin import Lin as _L8
+
+    def fld_atom(S_, f, name):
+        """the atom Symb uses for header field `name` (last path component) as read in f, or None"""
+        for i in f.all_nodes():
+            n_ = f.N(i)
+            if n_['k'] == 'MemberExpr' and (n_.get('ref') or '').endswith('::' + name):
+                l_ = S_.lin(i)
+                if len(l_.t) == 1 and l_.c == 0:
+                    return list(l_.t)[0]
+        return None
+
+    def nul_list_reader(f, tag_):
+        """loop that splits [cursor, cursor+remaining) at NUL bytes: n = strlen(cursor); piece.assign(cursor, n); cursor += n+1; remaining -= n+1; set.insert(piece)"""
+        lps_ = [L for L in q.loops(f) if any(f.callee(i) == 'strlen' for i in f.calls(f.N(L)['body']))]
+        if not lps_:
+            # the splitting may live in a helper of the same file that is handed the cursor, the length and the set
+            hs = [g for g in [P.fns.get(f.N(i).get('callee') or '') for i in f.calls()] if g is not None and g.entry is not None and g.file == f.file and g is not f and
+                  any(g.callee(i) == 'strlen' for i in g.calls())]
+            if len(hs) == 1:
+                cs_ = [i for i in f.calls() if f.N(i).get('callee') == hs[0].id]
+                lens_ok = len(cs_) == 1 and any(any(r.endswith('::triggers_len') for r in q.deep_refs(f, a_)) for a_ in f.args(cs_[0]))
+                if not lens_ok:
+                    return False, 'the splitting helper is not handed the transmitted triggers_len'
+                return nul_list_reader(hs[0], tag_)
+        if len(lps_) != 1:
+            return False, 'no single loop around strlen'
+        L = lps_[0]
+        body = f.N(L)['body']
+        S_ = q.symb_with_locals(f)
+        sl = [i for i in f.calls(body) if f.callee(i) == 'strlen']
+        cur_ = f.ref_of(f.args(sl[0])[0])
+        if len(sl) != 1 or cur_ is None:
+            return False, 'strlen is not applied to the cursor'
+        N_ = S_.lin(sl[0])
+        asg_ = [i for i in f.calls(body) if q.short_of(f.bcallee(i) or '') == 'assign' and len(f.args(i)) == 2]
+        ctor_ = [i for i in f.calls(body) if f.N(i)['k'] in ('CXXConstructExpr', 'CXXTemporaryObjectExpr') and 'basic_string' in (f.callee(i) or '') and len([a for a in f.args(i) if f.N(a)['k'] != 'CXXDefaultArgExpr']) == 2]
+        asg_ = asg_ or ctor_
+        if len(asg_) != 1 or f.ref_of(f.args(asg_[0])[0]) != cur_ or (S_.lin(f.args(asg_[0])[1]) - N_).key() != _L8.const(0).key():
+            return False, 'the piece is not (cursor, strlen(cursor))'
+        if f.N(asg_[0])['k'] == 'CXXMemberCallExpr':
+            piece = f.ref_of(f.obj(asg_[0]))
+        else:
+            piece = ([d['ref'] for i in f.all_nodes() if f.N(i)['k'] == 'DeclStmt' for d in f.N(i)['decls'] if d.get('init') is not None and asg_[0] in set(f.walk(d['init']))] or [None])[0]
+        insx = [i for i in f.calls(body) if q.short_of(f.bcallee(i) or '') == 'insert' and piece in f.subtree_refs(i)]
+        if len(insx) != 1 or not q.before(f, asg_[0], insx[0]):
+            return False, 'the piece is not inserted into the set'
+        cw = [w for w in q.writes_to(f, cur_, body)]
+        remv = [r for r in f.subtree_refs(f.N(L)['cond']) if r.startswith(('v:', 'p:')) and r != cur_]
+        rw = [w for r in remv for w in q.writes_to(f, r, body)]
+        okc = len(cw) == 1 and f.N(cw[0])['k'] == 'CompoundAssignOperator' and f.N(cw[0]).get('op') == '+=' and (S_.lin(f.N(cw[0])['ch'][1]) - N_ - _L8.const(1)).key() == _L8.const(0).key()
+        okr = len(rw) == 1 and f.N(rw[0])['k'] == 'CompoundAssignOperator' and f.N(rw[0]).get('op') == '-=' and (S_.lin(f.N(rw[0])['ch'][1]) - N_ - _L8.const(1)).key() == _L8.const(0).key()
+        cn_ = f.N(f.strip(f.N(L)['cond'])) if f.N(L).get('cond', -1) not in (None, -1) else {'k': None}
+        okcond = cn_['k'] == 'BinaryOperator' and ((cn_.get('op') in ('>', '!=') and f.const_value(cn_['ch'][1]) == 0) or (cn_.get('op') == '<' and f.const_value(cn_['ch'][0]) == 0))
+        if not (okc and okr and okcond):
+            return False, 'cursor / remaining length are not moved by strlen + 1 per name, or the loop does not run while something remains'
+        # the cursor moves after the piece was taken, and every turn inserts
+        if piece is None or not (q.before(f, asg_[0], cw[0]) and q.before(f, sl[0], cw[0])):
+            return False, 'the cursor is moved before the name is taken'
+        return True, ''
+    lt = P.fn(SS + '::load_triggers')
+    okl, why = nul_list_reader(lt, 'load_triggers')
+    ctx.check(okl, R8, 'server:load_triggers:splits-at-NUL', why, lt.where)
+    okl, why = nul_list_reader(cfetch, 'fetch')
+    ctx.check(okl, R8, 'client:fetch:trigger-names-split-at-NUL', why, cfetch.where)
+
+    def nul_list_writer(f, out_match, setv_match):
+        """for every element of the set: out.append(p->c_str(), p->size() + 1)"""
+        for L in q.loops(f):
+            body = f.N(L)['body']
+            ap_ = [i for i in f.calls(body) if q.short_of(f.bcallee(i) or '') == 'append' and out_match(f, i) and len([a for a in f.args(i) if f.N(a)['k'] != 'CXXDefaultArgExpr']) == 2]
+            if len(ap_) != 1:
+                continue
+            a_ = f.args(ap_[0])
+            S_ = q.symb_with_locals(f)
+            ln_ = S_.lin(a_[1])
+            okn = ln_.c == 1 and len(ln_.t) == 1 and list(ln_.t.values()) == [1] and list(ln_.t)[0].endswith(('.size()', '.length()'))
+            okp = any(q.short_of(f.bcallee(j) or '') in ('c_str', 'data') for j in f.calls(a_[0]))
+            esc = [j for j in f.walk(body) if f.N(j)['k'] in ('BreakStmt', 'ContinueStmt', 'ReturnStmt', 'GotoStmt')]
+            okw = q.whole_loop(f, L, setv_match)
+            return (okn and okp and not esc and okw), ap_[0], L
+        return False, None, None
+    # client store frame
+    keyp8, valp8, trp8 = q.param_by_index(cstore, 0), q.param_by_index(cstore, 1), q.param_by_index(cstore, 2)
+    datav = [d['ref'] for i in cstore.all_nodes() if cstore.N(i)['k'] == 'DeclStmt' for d in cstore.N(i)['decls'] if (cstore.types[d['t']] or '').startswith('std::basic_string') or (cstore.types[d['t']] or '') == 'std::string']
+    okw, apn, Lw = nul_list_writer(cstore, lambda f, i: f.obj(i) is not None and f.ref_of(f.obj(i)) in datav, lambda f, j: f.obj(j) is not None and f.ref_of(f.obj(j)) == trp8)
+    aps = [i for i in cstore.calls() if q.short_of(cstore.bcallee(i) or '') == 'append' and cstore.obj(i) is not None and cstore.ref_of(cstore.obj(i)) in datav and len([a for a in cstore.args(i) if cstore.N(a)['k'] != 'CXXDefaultArgExpr']) == 1]
+    order = len(aps) == 2 and cstore.ref_of(cstore.args(aps[0])[0]) == keyp8 and cstore.ref_of(cstore.args(aps[1])[0]) == valp8 and q.before(cstore, aps[0], aps[1]) and Lw is not None and q.before(cstore, aps[1], cstore.N(Lw)['cond'])
+    S8 = q.symb_with_locals(cstore)
+
+    def hw(name):
+        ws_ = [w for w in cstore.all_nodes() if cstore.N(w)['k'] == 'BinaryOperator' and cstore.N(w).get('op') == '=' and (cstore.ref_of(cstore.N(w)['ch'][0]) or '').endswith('::' + name)]
+        return ws_
+    kl_, dl_, tl_ = hw('key_len'), hw('data_len'), hw('triggers_len')
+    lens = len(kl_) == 1 and len(dl_) == 1 and len(tl_) == 1 and repr(S8.lin(cstore.N(kl_[0])['ch'][1])) == keyp8 + '.size()' and repr(S8.lin(cstore.N(dl_[0])['ch'][1])) == valp8 + '.size()'
+    # triggers_len is a counter that grows by size()+1 per name in the same loop
+    tl_ok = False
+    if len(tl_) == 1 and Lw is not None:
+        tv = cstore.ref_of(cstore.N(tl_[0])['ch'][1])
+        incs = [w for w in q.writes_to(cstore, tv, Lw)] if tv else []
+        if len(incs) == 1 and cstore.N(incs[0])['k'] == 'CompoundAssignOperator' and cstore.N(incs[0]).get('op') == '+=':
+            e_ = S8.lin(cstore.N(incs[0])['ch'][1])
+            tl_ok = e_.c == 1 and len(e_.t) == 1 and list(e_.t)[0].endswith('.size()') and any(cstore.const_value(v_) == 0 for (d_, v_) in cstore.defs_of_var(tv) if v_ is not None and not cstore.contains(Lw, d_)) and q.before(cstore, cstore.N(Lw)['cond'], tl_[0])
+    ctx.check(okw and order and lens and tl_ok, R8, 'client:store:frame-is-key+value+names-with-their-lengths', 'the store frame is not key, value, NUL-terminated trigger names in this order with key_len / data_len / triggers_len set to their sizes', cstore.where)
+    tmo = [w for w in cstore.all_nodes() if cstore.N(w)['k'] == 'BinaryOperator' and cstore.N(w).get('op') == '=' and (cstore.ref_of(cstore.N(w)['ch'][0]) or '').endswith('store)::timeout') or
+           (cstore.N(w)['k'] == 'BinaryOperator' and cstore.N(w).get('op') == '=' and (cstore.ref_of(cstore.N(w)['ch'][0]) or '').endswith('::timeout'))]
+    ctx.check(len(tmo) >= 1 and all(cstore.ref_of(cstore.N(w)['ch'][1]) == q.param_by_index(cstore, 3) for w in tmo), R8, 'client:store:deadline-sent', 'the deadline of the entry is not sent', cstore.where)
+    # server store slices
+    Ss = q.symb_with_locals(sstore)
+    KL, DL, TL = fld_atom(Ss, sstore, 'key_len'), fld_atom(Ss, sstore, 'data_len'), fld_atom(Ss, sstore, 'triggers_len')
+    BEG = None
+    slices = {}
+    for i in sstore.calls():
+        if q.short_of(sstore.bcallee(i) or '') == 'assign' and len(sstore.args(i)) == 2 and sstore.obj(i) is not None:
+            b_, e_ = Ss.lin(sstore.args(i)[0]), Ss.lin(sstore.args(i)[1])
+            base = [a for a in b_.t if a.endswith('data_in_.begin()')]
+            if len(base) == 1:
+                slices[sstore.ref_of(sstore.obj(i))] = (b_ - _L8.atom(base[0]), e_ - b_, i)
+    cst = [i for i in sstore.calls() if q.short_of(sstore.bcallee(i) or '') == 'store' and sstore.N(i)['k'] == 'CXXMemberCallExpr' and len(sstore.args(i)) >= 4]
+    oks = len(cst) == 1 and KL and DL and TL
+    if oks:
+        a = sstore.args(cst[0])
+        kv, dv = sstore.ref_of(a[0]), sstore.ref_of(a[1])
+        z = _L8.const(0).key()
+        oks = kv in slices and dv in slices and slices[kv][0].key() == z and (slices[kv][1] - _L8.atom(KL)).key() == z and \
+            (slices[dv][0] - _L8.atom(KL)).key() == z and (slices[dv][1] - _L8.atom(DL)).key() == z
+        ltc = [i for i in sstore.calls() if sstore.bcallee(i) == SS + '::load_triggers']
+        oks = oks and len(ltc) == 1 and sstore.ref_of(sstore.args(ltc[0])[0]) == sstore.ref_of(a[2]) and q.before(sstore, ltc[0], cst[0])
+        if oks:
+            tsv = [r for r in sstore.subtree_refs(sstore.args(ltc[0])[1]) if r.startswith('v:')]
+            oks = len(tsv) == 1 and tsv[0] in slices and (slices[tsv[0]][0] - _L8.atom(KL) - _L8.atom(DL)).key() == z and (slices[tsv[0]][1] - _L8.atom(TL)).key() == z and \
+                (Ss.lin(sstore.args(ltc[0])[2]) - _L8.atom(TL)).key() == z
+            tmv = [r for r in q.deep_refs(sstore, a[3]) if r.endswith('::timeout')]
+            oks = oks and bool(tmv)
+    ctx.check(bool(oks), R8, 'server:store:slices-and-hands-key-value-names-deadline-to-the-cache', 'the server does not cut the frame into [0,key_len), [key_len,+data_len), [..,+triggers_len) and pass exactly these (and the deadline) to cache->store', sstore.where)
+    # server reply: value first, then the names; lengths
+    okd, apn2, Lw2 = nul_list_writer(sf, lambda f, i: f.obj(i) is not None and (model.strip_targs(f.ref_of(f.obj(i)) or '')).endswith('session::data_out_'), lambda f, j: True)
+    fc = [i for i in sf.calls() if q.short_of(sf.bcallee(i) or '') == 'fetch' and sf.N(i)['k'] == 'CXXMemberCallExpr']
+    okd = okd and len(fc) == 1
+    if okd:
+        av = [r for r in sf.subtree_refs(sf.args(fc[0])[1]) if r.startswith('v:')]
+        sw = [i for i in sf.calls() if q.short_of(sf.bcallee(i) or '') in ('swap', 'operator=', 'assign') and av and av[0] in sf.subtree_refs(i) and any(model.strip_targs(r).endswith('session::data_out_') for r in sf.subtree_refs(i))]
+        dlw = [w for w in sf.all_nodes() if sf.N(w)['k'] == 'BinaryOperator' and sf.N(w).get('op') == '=' and (sf.ref_of(sf.N(w)['ch'][0]) or '').endswith('::data_len')]
+        tlw = [w for w in sf.all_nodes() if sf.N(w)['k'] == 'BinaryOperator' and sf.N(w).get('op') == '=' and (sf.ref_of(sf.N(w)['ch'][0]) or '').endswith('::triggers_len')]
+        Sf = q.symb_with_locals(sf)
+        okd = len(sw) == 1 and len(dlw) == 1 and len(tlw) == 1 and q.before(sf, sw[0], dlw[0]) and q.before(sf, dlw[0], sf.N(Lw2)['cond']) and q.reaches(sf, sf.N(Lw2)['cond'], tlw[0]) and not q.reaches(sf, tlw[0], sf.N(Lw2)['cond'])
+        if okd:
+            dsz = Sf.lin(sf.N(dlw[0])['ch'][1])
+            tsz = Sf.lin(sf.N(tlw[0])['ch'][1])
+            okd = len(dsz.t) == 1 and list(dsz.t)[0].endswith('data_out_.size()') and dsz.c == 0 and any(a_.endswith('data_out_.size()') for a_ in tsz.t) and any(a_.endswith('::data_len') for a_ in tsz.t)
+    ctx.check(bool(okd), R8, 'server:fetch:reply-is-value+names-with-their-lengths', 'the data reply is not the fetched value followed by the NUL-terminated names with data_len / triggers_len describing them', sf.where)
+    # client takes the value from [0, data_len) and starts the names right behind it
+    Sc = q.symb_with_locals(cfetch)
+    okc = len(asg) == 1
+    if okc:
+        a = cfetch.args(asg[0])
+        DLc = fld_atom(Sc, cfetch, 'data_len')
+        curc = cfetch.ref_of(a[0])
+        adv = [w for w in q.writes_to(cfetch, curc) if cfetch.N(w)['k'] == 'CompoundAssignOperator' and not any(cfetch.contains(L, w) for L in q.loops(cfetch))] if curc else []
+        okc = DLc is not None and curc is not None and (Sc.lin(a[1]) - _L8.atom(DLc)).key() == _L8.const(0).key() and len(adv) == 1 and (Sc.lin(cfetch.N(adv[0])['ch'][1]) - _L8.atom(DLc)).key() == _L8.const(0).key() and q.before(cfetch, asg[0], adv[0])
+        cdef = [v_ for (d_, v_) in cfetch.defs_of_var(curc) if v_ is not None and cfetch.N(d_)['k'] == 'DeclStmt'] if curc else []
+        okc = okc and len(set(cdef)) == 1 and any(q.short_of(cfetch.bcallee(j) or '') in ('c_str', 'data') for j in cfetch.calls(cdef[0]))
+    ctx.check(bool(okc), R8, 'client:fetch:value-is-the-first-data_len-bytes-names-follow', 'the client does not take the value from the first data_len bytes of the reply and the names from what follows', cfetch.where)
+    # operations reach the cache
+    for nm_, meth, needs_key in (('rise', 'rise', True), ('clear', 'clear', False)):
+        f = P.fn(SS + '::' + nm_)
+        cc = [i for i in f.calls() if q.short_of(f.bcallee(i) or '') == meth and f.N(i)['k'] == 'CXXMemberCallExpr' and any(model.strip_targs(r).endswith('session::cache_') for r in f.subtree_refs(f.obj(i)))]
+        okx = len(cc) == 1 and q.always_before_exit(f, cc)
+        if okx and needs_key:
+            kv = f.ref_of(f.args(cc[0])[0])
+            ka = [i for i in f.calls() if q.short_of(f.bcallee(i) or '') == 'assign' and f.obj(i) is not None and f.ref_of(f.obj(i)) == kv] + \
+                 [v_ for (d_, v_) in f.defs_of_var(kv or '') if v_ is not None and f.N(f.strip(v_))['k'] in ('CXXConstructExpr',) and len(f.args(f.strip(v_))) >= 2]
+            okx = len(ka) == 1 and any(q.short_of(f.bcallee(j) or '') == 'begin' for j in f.calls(ka[0])) and any(q.short_of(f.bcallee(j) or '') == 'end' for j in f.calls(ka[0])) and \
+                not any(f.N(j)['k'] == 'CXXOperatorCallExpr' and f.N(j).get('op') in ('+', '-') for j in f.walk(ka[0]))
+        ctx.check(okx, R8, 'server:%s:applied-to-the-cache-with-the-whole-payload' % nm_, 'the operation is acknowledged without being applied to the cache (with the transmitted name)', f.where)
+    f = crise
+    hsz = [w for w in f.all_nodes() if f.N(w)['k'] == 'BinaryOperator' and f.N(w).get('op') == '=' and (f.ref_of(f.N(w)['ch'][0]) or '').endswith('tcp_operation_header::size')]
+    bc = [i for i in f.calls() if q.short_of(f.bcallee(i) or '') == 'broadcast']
+    pv8 = f.ref_of(f.args(bc[0])[1]) if bc else None
+    carries = bool(pv8) and any(v_ is not None and q.param_by_index(f, 0) in f.subtree_refs(v_) for (d_, v_) in f.defs_of_var(pv8)) and not [w for w in f.calls() if q.short_of(f.bcallee(w) or '') in ('clear', 'assign', 'append', 'erase') and f.obj(w) is not None and f.ref_of(f.obj(w)) == pv8]
+    okx = len(bc) == 1 and len(hsz) == 1 and carries and q.param_by_index(f, 0) in f.subtree_refs(f.N(hsz[0])['ch'][1])
+    ctx.check(okx, R8, 'client:rise:payload-is-the-trigger-name', 'rise does not send the trigger name as the payload', f.where)
+    ctx.floor(R8, 8)
 
     # ---------------- R6
     slen = sstore.gate_edges(lambda atom, pol: sstore.N(atom)['k'] == 'BinaryOperator' and sstore.N(atom).get('op') == '!=' and
